@@ -2,7 +2,7 @@
 EXTENDS CompletionProp, TLC, TLCExt, Json, IOUtils
 Log == ndJsonDeserialize(IOEnv.VERIF_TRACE)
 VARIABLE l
-tvars == <<reqs, cbs, lastOk, bad, l>>
+tvars == <<reqs, cbs, rets, lastOk, bad, l>>
 TInit == TLCSet(1, 0) /\ PInit /\ l = 1
 Ev(e) == l <= Len(Log) /\ Log[l].ev = e /\ l' = l + 1
 TReq     == Ev("req") /\ PReq(Log[l].id)
@@ -11,9 +11,11 @@ TCb      == Ev("cb") /\ PCb(Log[l].id, Log[l].err)
 TPanic   == Ev("panic") /\ PPanic
 TFinal   == Ev("final") /\ PFinal
 TExpired == Ev("expired") /\ PExpired({Log[l].ids[i] : i \in 1..Len(Log[l].ids)})
-TReset   == Ev("reset") /\ reqs' = {} /\ cbs' = {} /\ lastOk' = <<>> /\ bad' = bad
-TSkip    == l <= Len(Log) /\ Log[l].ev \notin {"req", "attempt", "cb", "panic", "final", "reset", "expired"} /\ l' = l + 1 /\ UNCHANGED pvars
-TNext == TReq \/ TAttempt \/ TCb \/ TPanic \/ TFinal \/ TExpired \/ TReset \/ TSkip
+TRet     == Ev("ret") /\ PRet(Log[l].id)
+TCancelled == Ev("cancelled") /\ PCancelled(Log[l].id)
+TReset   == Ev("reset") /\ reqs' = {} /\ cbs' = {} /\ rets' = {} /\ lastOk' = <<>> /\ bad' = bad
+TSkip    == l <= Len(Log) /\ Log[l].ev \notin {"req", "attempt", "cb", "panic", "final", "reset", "expired", "ret", "cancelled"} /\ l' = l + 1 /\ UNCHANGED pvars
+TNext == TRet \/ TCancelled \/ TReq \/ TAttempt \/ TCb \/ TPanic \/ TFinal \/ TExpired \/ TReset \/ TSkip
 TSpec == TInit /\ [][TNext]_tvars
 HighWater == TLCSet(1, IF l > TLCGet(1) THEN l ELSE TLCGet(1))
 Accepted == TLCGet(1) = Len(Log) + 1
